@@ -49,9 +49,16 @@ impl Budget {
     fn fmt<T: fmt::Debug>(&mut self, x: &T) {
         // the timer of the probe is replaced by the budget of this one call and re-armed afterwards
         let t0 = vcore::guard::thread_cpu_s();
+        let sh = crate::alloc::shared();
+        if let Some(sh) = sh {
+            sh.in_debug_call.store(1, Relaxed);
+        }
         forkrun::set_timer(self.debug_s);
         let _ = write!(self.sink, "{x:?}");
         forkrun::set_timer(forkrun::PROBE_BUDGET_S.load(Relaxed) as f64);
+        if let Some(sh) = sh {
+            sh.in_debug_call.store(0, Relaxed);
+        }
         let dt = ((vcore::guard::thread_cpu_s() - t0) * 1e6) as u64;
         if let Some(sh) = crate::alloc::shared() {
             sh.max_debug_call_us.fetch_max(dt, Relaxed);
